@@ -50,6 +50,13 @@ func subjects() []subject {
 		{"recursive references", ss[2], false, nil},
 		{"one-of over references", ss[4], false, nil},
 		{"treat-empty-as-default", ukit.WrapScope(ukit.ShapeSpecs()[8]), false, nil},
+		// collection defaults of any-typed properties: every caller gets a value of its own (each thread overwrites what it
+		// was handed, see doOp)
+		{"any-typed properties with collection defaults", ukit.WrapScope(&ukit.Spec{Kind: ukit.KObject, ID: "AnyDef", Props: []ukit.Prop{
+			{Name: "l", Type: &ukit.Spec{Kind: ukit.KAny}, Default: ukit.Str("[1, 2]")},
+			{Name: "m", Type: &ukit.Spec{Kind: ukit.KAny}, Default: ukit.Str("{\"k\": [\"x\"], \"n\": {\"d\": 1}}")},
+			{Name: "s", Type: &ukit.Spec{Kind: ukit.KString}},
+		}}), false, nil},
 		// a rejection that comes from a property's own guard (disabled without a reason, as a received description
 		// states it): both threads are refused at the same place
 		{"disabled properties", ukit.WrapScope(&ukit.Spec{Kind: ukit.KObject, ID: "Dis", Props: []ukit.Prop{
@@ -202,7 +209,13 @@ func doOp(sch *schema.ScopeSchema, op string, in inputs, sub subject) string {
 	if err != nil {
 		return "error"
 	}
-	return "ok " + ukit.Snapshot(v)
+	out := "ok " + ukit.Snapshot(v)
+	if strings.HasPrefix(op, "Unserialize") {
+		// the caller owns what it was handed: it overwrites all of it in place. Another caller's result (and this schema's
+		// later results) must not change with it.
+		ukit.Scribble(v)
+	}
+	return out
 }
 
 type obs struct {
@@ -581,7 +594,7 @@ func main() {
 			return judge(scs[sc.Name], r)
 		},
 		Pre:  pre,
-		Rule: "stateless depth-first search over thread schedules of the real schema code under a cooperative scheduler (sync shim; access events on every lazily written field, package variable and map object): 11 subjects (units, defaults, struct-mapped sub-objects, references, one-ofs) x {freshly built, freshly rebuilt from the description} x every unordered pair of {Unserialize, Unserialize of a second value, Unserialize of a value the schema rejects (an unparsable unit string where there are units), Validate, Serialize, ValidateCompatibility with data, ValidateCompatibility with a schema, SelfSerialize} (thorough: plus triples), all schedules within the bound; plus step calls on one callable schema: CallStep / CallSignal for run ids r1, r2 from 2-4 threads (thorough 5), first use of a run id raced between step and signal; every execution: vector-clock race scan, result of every call equal to the call in isolation, initializer once per run id, signal handler sees its run's step data; package-level unit definitions: first use raced in a fresh process per trial",
+		Rule: "stateless depth-first search over thread schedules of the real schema code under a cooperative scheduler (sync shim; access events on every lazily written field, package variable and map object): 13 subjects (units, defaults, collection defaults of any-typed properties, struct-mapped sub-objects, references, one-ofs) x {freshly built, freshly rebuilt from the description} x every unordered pair of {Unserialize, Unserialize of a second value, Unserialize of a value the schema rejects (an unparsable unit string where there are units), Validate, Serialize, ValidateCompatibility with data, ValidateCompatibility with a schema, SelfSerialize} (thorough: plus triples), all schedules within the bound; plus step calls on one callable schema: CallStep / CallSignal for run ids r1, r2 from 2-4 threads (thorough 5), first use of a run id raced between step and signal; every execution: vector-clock race scan, result of every call equal to the call in isolation (every caller overwrites in place what Unserialize handed it as soon as it has it), initializer once per run id, signal handler sees its run's step data; package-level unit definitions: first use raced in a fresh process per trial",
 		Budget: func(tier string) time.Duration {
 			if tier == "thorough" {
 				return 20 * time.Minute
